@@ -11,6 +11,7 @@ Modular chain (each link a contract on the real methods, symbolic in every param
                f_R, f_Z = grad psi/|grad psi|^2; the three second derivatives = D D psi
 """
 import types
+from contracts.meshkit import Opts as _Opts  # noqa: E402
 
 import z3
 
@@ -28,7 +29,7 @@ def skeleton(ctx, ncoef):
     a = [ctx.real("a%d" % k) for k in range(ncoef)]
     R0, B0 = ctx.real("R0"), ctx.real("B0")
     ctx.assume(And(R0 > 0, B0 != 0, *[x > 0 for x in a]))
-    eq.user_options = types.SimpleNamespace(q_coefficients=a, R0=R0, B0=B0)
+    eq.user_options = _Opts(q_coefficients=a, R0=R0, B0=B0)
     return eq, a, R0, B0
 
 
@@ -96,7 +97,7 @@ def run_fields(ctx):
     R0 = ctx.real("R0")
     R, Z = ctx.real("R"), ctx.real("Z")
     ctx.assume(And(R0 > 0, R > 0, Or(R != R0, Z != 0)))
-    eq.user_options = types.SimpleNamespace(R0=R0, B0=ctx.real("B0"), q_coefficients=[ctx.real("a0")])
+    eq.user_options = _Opts(R0=R0, B0=ctx.real("B0"), q_coefficients=[ctx.real("a0")])
     P, P1, P2, P3 = (ctx.real(n) for n in ("P", "P1", "P2", "P3"))
     ctx.assume(P1 != 0)
     r = eq.r(R, Z)
